@@ -31,6 +31,10 @@
 #include "internal/inputerator.hpp"
 #include "internal/rewind_guard.hpp"
 
+#if defined( TAO_PEGTL_VERIF )
+#include "internal/verif_hooks.hpp"
+#endif
+
 namespace TAO_PEGTL_NAMESPACE
 {
    template< typename Reader, typename Eol = eol::lf_crlf, typename Source = std::string, std::size_t Chunk = 64 >
@@ -115,6 +119,9 @@ namespace TAO_PEGTL_NAMESPACE
 
       [[nodiscard]] char peek_char( const std::size_t offset = 0 ) const noexcept
       {
+#if defined( TAO_PEGTL_VERIF )
+         internal::verif::check_window( 0, this, offset, std::size_t( m_end - m_current.data ), false );
+#endif
          return m_current.data[ offset ];
       }
 
@@ -125,16 +132,28 @@ namespace TAO_PEGTL_NAMESPACE
 
       void bump( const std::size_t in_count = 1 ) noexcept
       {
+#if defined( TAO_PEGTL_VERIF )
+         internal::verif::check_window( 1, this, in_count, std::size_t( m_end - m_current.data ), true );
+         internal::verif::observe_bump( this, in_count );
+#endif
          internal::bump( m_current, in_count, Eol::ch );
       }
 
       void bump_in_this_line( const std::size_t in_count = 1 ) noexcept
       {
+#if defined( TAO_PEGTL_VERIF )
+         internal::verif::check_window( 2, this, in_count, std::size_t( m_end - m_current.data ), true );
+         internal::verif::observe_bump( this, in_count );
+#endif
          internal::bump_in_this_line( m_current, in_count );
       }
 
       void bump_to_next_line( const std::size_t in_count = 1 ) noexcept
       {
+#if defined( TAO_PEGTL_VERIF )
+         internal::verif::check_window( 3, this, in_count, std::size_t( m_end - m_current.data ), true );
+         internal::verif::observe_bump( this, in_count );
+#endif
          internal::bump_to_next_line( m_current, in_count );
       }
 
@@ -146,6 +165,11 @@ namespace TAO_PEGTL_NAMESPACE
             m_current.data = m_buffer.get();
             m_end = m_buffer.get() + s;
          }
+#if defined( TAO_PEGTL_VERIF )
+         if( internal::verif::hooks.buffer_window != nullptr ) {
+            internal::verif::hooks.buffer_window( this, m_buffer.get(), m_maximum, m_current.data, m_end );
+         }
+#endif
       }
 
       void require( const std::size_t amount )
@@ -153,6 +177,11 @@ namespace TAO_PEGTL_NAMESPACE
          if( m_current.data + amount <= m_end ) {
             return;
          }
+#if defined( TAO_PEGTL_VERIF )
+         if( internal::verif::hooks.buffer_require != nullptr ) {
+            internal::verif::hooks.buffer_require( this, std::size_t( m_current.data - m_buffer.get() ), amount, m_maximum, std::size_t( m_end - m_current.data ) );
+         }
+#endif
          if( m_current.data + amount > m_buffer.get() + m_maximum ) {
 #if defined( __cpp_exceptions )
             throw std::overflow_error( "require() beyond end of buffer" );
@@ -161,6 +190,18 @@ namespace TAO_PEGTL_NAMESPACE
             std::terminate();
 #endif
          }
+#if defined( TAO_PEGTL_VERIF )
+         if( internal::verif::hooks.buffer_read != nullptr ) {
+            const std::size_t verif_requested = ( std::min )( buffer_free_after_end(), ( std::max )( amount - buffer_occupied(), Chunk ) );
+            const std::size_t verif_got = m_reader( m_end, verif_requested );
+            m_end += verif_got;
+            internal::verif::hooks.buffer_read( this, verif_requested, verif_got );
+            if( internal::verif::hooks.buffer_window != nullptr ) {
+               internal::verif::hooks.buffer_window( this, m_buffer.get(), m_maximum, m_current.data, m_end );
+            }
+            return;
+         }
+#endif
          m_end += m_reader( m_end, ( std::min )( buffer_free_after_end(), ( std::max )( amount - buffer_occupied(), Chunk ) ) );
       }
 
